@@ -374,7 +374,20 @@ func (n *rawNode) emit(o *bytes.Buffer, sortMembers bool) {
 			idx[i] = i
 		}
 		if sortMembers {
-			sort.SliceStable(idx, func(a, b int) bool { return bytes.Compare(n.keys[idx[a]], n.keys[idx[b]]) < 0 })
+			// ties (two Go map keys that sanitise to the same JSON key) are ordered by the member's own rendering, so
+			// that the canonical form does not depend on the iteration order of the map
+			rendered := make([][]byte, len(n.keys))
+			for i := range n.keys {
+				var mb bytes.Buffer
+				n.members[i].emit(&mb, sortMembers)
+				rendered[i] = mb.Bytes()
+			}
+			sort.SliceStable(idx, func(a, b int) bool {
+				if c := bytes.Compare(n.keys[idx[a]], n.keys[idx[b]]); c != 0 {
+					return c < 0
+				}
+				return bytes.Compare(rendered[idx[a]], rendered[idx[b]]) < 0
+			})
 		}
 		o.WriteByte('{')
 		for j, i := range idx {
